@@ -652,9 +652,10 @@ impl CanonicalizeContext {
 		}
 		if element_name == "mmultiscripts" {
 			// not in ELEMENTS_WITH_FIXED_NUMBER_OF_CHILDREN, so the test above is never reached for it
-			let has_prescripts = mathml.children().iter()
-					.any(|&child| child.element().is_some() && name(&as_element(child)) == "mprescripts");
-			if n_children == 0 || (has_prescripts ^ (n_children % 2 == 0)) {
+			let n_prescripts = mathml.children().iter()
+					.filter(|&child| child.element().is_some() && name(&as_element(*child)) == "mprescripts").count();
+			let has_prescripts = n_prescripts > 0;
+			if n_children == 0 || n_prescripts > 1 || (has_prescripts ^ (n_children % 2 == 0)) {
 				bail!("{} has the wrong number of children:\n{}", element_name, mml_to_string(&mathml));
 			}
 		}
